@@ -32,11 +32,11 @@ ASSUMPTIONS = ["a crash leaves a byte prefix of the file (append-only stream)",
                "record contents range over a finite family; offsets are exhaustive"]
 REQUIRED_CLASSES = ['offset-in-metadata', 'offset-on-record-boundary', 'offset-inside-numpy-payload', 'offset-last-byte',
                     'open-raises', 'iteration-raises', 'clean-end-after-prefix', 'yields-some-then-raises-or-ends',
-                    'full-file', 'record-with-thousands-of-fits', 'same-source-twice']
+                    'full-file', 'record-with-thousands-of-fits', 'same-source-twice', 'blank-padded-names', 'same-source-object-changed-in-place']
 TIMEOUT = {'quick': 300, 'thorough': 900}
 
-KINDS_QUICK = ['f0', 'f1m', 'f3m', 'f3', 'f1L', 'f3mx', 'f1D']          # D: same source as the record before it
-KINDS_ALL = ['f0', 'f0m', 'f1', 'f1m', 'f3', 'f3m', 'f1L', 'f3mL', 'f3mx', 'f3x', 'f0L', 'f1mL', 'f1D', 'f3mD']
+KINDS_QUICK = ['f0', 'f1m', 'f3m', 'f3', 'f1L', 'f3mx', 'f1D', 'f1mP', 'f1S']          # D: same source content as the record before it; P: blank-padded names; S: the very same Source object, changed in place
+KINDS_ALL = ['f0', 'f0m', 'f1', 'f1m', 'f3', 'f3m', 'f1L', 'f3mL', 'f3mx', 'f3x', 'f0L', 'f1mL', 'f1D', 'f3mD', 'f1mP', 'f3P', 'f1S', 'f3mS']
 
 
 def setup(tier, seed):
@@ -106,7 +106,7 @@ def _record(kind, idx, meta):
     from sedfitter.source import Source
     s = Source()
     sidx = max(idx - 1, 0) if 'D' in kind else idx         # 'D': the very same source as the previous record (e.g. a source fitted twice)
-    s.name = ('source_with_a_rather_long_name_%02d' % sidx) if 'L' in kind else 's%d' % sidx
+    s.name = ('source_with_a_rather_long_name_%02d' % sidx) if 'L' in kind else ('s%d   ' % sidx if 'P' in kind else 's%d' % sidx)
     s.x = 10.25 + sidx
     s.y = -0.5 * sidx
     s.valid = np.array([1, 4, 3])
@@ -125,7 +125,7 @@ def _record(kind, idx, meta):
         i.av = i.av.copy()
         i.av[0] = np.inf
     i.model_id = np.array([2, 0, 1][:n])
-    i.model_name = np.array(['model_c', 'model_a', 'model_b'][:n], dtype='U30')
+    i.model_name = np.array(['model_c', 'model_a', 'model_b'][:n], dtype='U30') if 'P' not in kind else np.array(['model_c    ', 'model_a    ', 'model_b    '][:n], dtype='U30')
     i.model_fluxes = (np.arange(n * 3, dtype=float).reshape(n, 3) + 0.5 * idx) if 'm' in kind else None
     i.meta.model_dir, i.meta.filters, i.meta.extinction_law = meta
     return i
@@ -152,19 +152,36 @@ def _first_openable(data, path):
     return len(data)
 
 
-def _record_ends(records, d, data):
-    """Offsets at which each record is completely on disk, obtained with the real writer only:
-    size of the file holding the first k records, provided that file is a byte prefix of the
-    full file (append-only stream).  Returns None when the format is not append-only (then the
-    boundary classes cannot be assigned)."""
+def _write_history(path, seq, meta, upto=None, rec=None):
+    """Write the first `upto` records of the sequence with the real writer, replaying the same history on fresh objects
+    (including the in-place change of a shared Source object between two writes).  Returns (records, canon of each record
+    as it was when it was written)."""
     from sedfitter.fit_info import FitInfoFile
+    records = [_record(k, i, meta) for i, k in enumerate(seq)]
+    upto = len(records) if upto is None else upto
+    fout = FitInfoFile(path, 'w')
+    written = []
+    for i, (k, r) in enumerate(zip(seq[:upto], records[:upto])):
+        if 'S' in k and i > 0:
+            r.source = records[i - 1].source
+            r.source.valid[2] = 0 if r.source.valid[2] != 0 else 1
+            if rec is not None:
+                rec.cls('same-source-object-changed-in-place')
+        written.append(canon(r))
+        fout.write(r)
+    fout.close()
+    return records, written
+
+
+def _record_ends(seq, meta, d, data):
+    """Offsets at which each record is completely on disk, obtained with the real writer only:
+    size of the file holding the first k records (same write history), provided that file is a byte prefix
+    of the full file (append-only stream).  Returns None when the format is not append-only (then the
+    boundary classes cannot be assigned)."""
     ends = []
-    for k in range(1, len(records) + 1):
+    for k in range(1, len(seq) + 1):
         p = os.path.join(d, 'prefix%d.fitinfo' % k)
-        fo = FitInfoFile(p, 'w')
-        for r in records[:k]:
-            fo.write(r)
-        fo.close()
+        _write_history(p, seq, meta, upto=k)
         b = open(p, 'rb').read()
         if data[:len(b)] != b:
             return None
@@ -218,18 +235,15 @@ def _numpy_payload_ranges(data):
 def run_case(ctx, case, rec, d):
     from sedfitter.fit_info import FitInfoFile
     meta = _meta(d)
-    records = [_record(k, i, meta) for i, k in enumerate(case['seq'])]
     if any('D' in k for k in case['seq'][1:]):
         rec.cls('same-source-twice')
-    written = [canon(r) for r in records]
+    if any('P' in k for k in case['seq']):
+        rec.cls('blank-padded-names')
     meta_canon = canon([meta[0], meta[1], meta[2]])
     path = os.path.join(d, 'full.fitinfo')
-    fout = FitInfoFile(path, 'w')
-    for r in records:
-        fout.write(r)
-    fout.close()
+    records, written = _write_history(path, case['seq'], meta, rec=rec)
     data = open(path, 'rb').read()
-    rec_ends = _record_ends(records, d, data)
+    rec_ends = _record_ends(case['seq'], meta, d, data)
     if rec_ends is None:
         rec.notes['file-format-not-append-only'] += 1
         rec_ends = []
